@@ -56,6 +56,18 @@ Definition enc_add_recipient (first_b64 : bool) (p u : option hdr) : bool :=
   Bool.eqb (extract_b64 p) first_b64 && enc_json p u.
 (* Decoder::decode_signature: validate, then DecodedHeaders::new needs a header *)
 Definition dec_signature (p u : option hdr) : bool := validate_jws_headers p u && some_header p u.
+(* Decoder::decode_general_serialization (after the decode-side b64 fix): the protected headers of all signatures (those that
+   decode) must agree on b64 before any item is handed out; every item is then decoded on its own *)
+Definition dec_general_consistent (ps : list (option hdr)) : bool :=
+  match ps with
+  | [] => true
+  | p0 :: r => forallb (fun p => Bool.eqb (extract_b64 p) (extract_b64 p0)) r
+  end.
+(* the pinned tree had no such check *)
+Definition dec_general_consistent_pinned (ps : list (option hdr)) : bool := true.
+(* a two-signature token: the first signature's protected header has b64 = first_b64; is the second item handed out? *)
+Definition dec_general_second (first_b64 : bool) (p u : option hdr) : bool :=
+  Bool.eqb (extract_b64 p) first_b64 && dec_signature p u.
 (* JwsValidationItem::verify: protected header with alg (then check_alg + verifier) *)
 Definition verify_headers_ok (p u : option hdr) : bool :=
   match p with Some h => h_alg h | None => false end.
